@@ -75,6 +75,7 @@ def _drop_statements(text, head_re, log, what):
         if not sm:
             continue
         out.append(text[pos:m.start()])
+        out.append(';')   # the empty statement stays: 'if (c) printf(..);' must not swallow the statement that follows
         dropped.append(norm_ws(text[m.start():cp + 1]))
         pos = cp + 1 + sm.end()
     out.append(text[pos:])
